@@ -39,6 +39,39 @@ for node in ast.walk(ds):
                         problems.append(f"data_stream.{fn.name}: struct format {f!r} is not little-endian")
 
 
+modfuncs = {}  # module-level helper functions of records.py that take the stream as first parameter
+
+
+def subst_field(f, sub):
+    if f in sub:
+        return sub[f]
+    for pre in ("#len(", "#bytelen("):
+        if f.startswith(pre) and f[len(pre):-1] in sub:
+            return pre + sub[f[len(pre):-1]] + ")"
+    return f
+
+
+def subst_toks(toks, sub):
+    out_ = []
+    for t in toks:
+        nt = dict(t)
+        nt["field"] = subst_field(t["field"], sub)
+        if "len" in t:
+            nt["len"] = sub.get(t["len"], t["len"])
+        if "sub" in t:
+            nt["sub"] = subst_toks(t["sub"], sub)
+        out_.append(nt)
+    return out_
+
+
+def mod_call(e, recv_names):
+    """returns (funcdef, args) if e is helper(<stream>, args...) for a module-level helper"""
+    if isinstance(e, ast.Call) and isinstance(e.func, ast.Name) and e.func.id in modfuncs and e.args \
+            and isinstance(e.args[0], ast.Name) and e.args[0].id in recv_names:
+        return modfuncs[e.func.id], e.args
+    return None, None
+
+
 def name_of(e):
     """self.x -> x ; x -> x ; len(self.x) -> #len(x)"""
     if isinstance(e, ast.Attribute) and isinstance(e.value, ast.Name) and e.value.id == "self":
@@ -67,6 +100,14 @@ def write_toks(stmts, recv_names, subst=None):
     toks = []
     for st in stmts:
         if isinstance(st, ast.Expr):
+            hf, hargs = mod_call(st.value, recv_names)
+            if hf is not None:
+                params = [a.arg for a in hf.args.args]
+                sub = {p_: name_of(a) for p_, a in zip(params[1:], hargs[1:])}
+                inner = write_toks(hf.body, {params[0]}, None)
+                # a length local written before the repetition is named by normalise() at the end; keep it as it is
+                toks += subst_toks(inner, sub)
+                continue
             m, args = stream_call(st.value, recv_names)
             if m is None:
                 continue
@@ -127,7 +168,7 @@ def normalise(toks):
     return toks
 
 
-def read_toks(fn):
+def read_toks(fn, stream_name="stream"):
     """sequence of reads; variable -> field through the constructor call in the return statement"""
     toks, binds = [], {}
 
@@ -138,10 +179,26 @@ def read_toks(fn):
                 val = st.value
                 if val is None:
                     continue
+                hf, hargs = mod_call(val, {stream_name})
+                if hf is not None and isinstance(tgt, ast.Name):
+                    params = [a.arg for a in hf.args.args]
+                    itoks, ibinds, _ = read_toks(hf, params[0])
+                    ret = None
+                    for s2 in hf.body:
+                        if isinstance(s2, ast.Return) and isinstance(s2.value, ast.Name):
+                            ret = s2.value.id
+                    sub = {}
+                    if ret:
+                        sub[ret] = tgt.id
+                    for k_, v_ in ibinds.items():
+                        if v_ == ret:
+                            sub[k_] = tgt.id
+                    toks += subst_toks(itoks, sub)
+                    continue
                 calls = [c for c in ast.walk(val) if isinstance(c, ast.Call)]
                 hit = False
                 for c in calls:
-                    m, args = stream_call(c, {"stream"})
+                    m, args = stream_call(c, {stream_name})
                     if m is None:
                         continue
                     hit = True
@@ -158,7 +215,7 @@ def read_toks(fn):
                 if not hit and isinstance(tgt, ast.Name) and isinstance(val, ast.Name):
                     binds[tgt.id] = val.id
             elif isinstance(st, ast.Expr):
-                m, args = stream_call(st.value, {"stream"})
+                m, args = stream_call(st.value, {stream_name})
                 if m in rprim:
                     toks.append({"kind": rprim[m], "field": "#skip"})
             elif isinstance(st, ast.While):
@@ -199,6 +256,9 @@ for n, fn in methods.items():
             rcomposite[n] = [{"kind": kinds[0], "field": "#len($v)"}, {"kind": "raw", "field": "$v"}]
 
 rec = parse("records.py")
+for node in rec.body:
+    if isinstance(node, ast.FunctionDef) and node.args.args:
+        modfuncs[node.name] = node
 out = {}
 for node in rec.body:
     if not isinstance(node, ast.ClassDef):
